@@ -36,6 +36,54 @@ SEMA_PROP = ["ErrOnlyWhenDone", "OkTakesSlot", "DoneReturns"]
 KEYS = '{"a", "b"}'
 
 
+def _par_tlc(ctx, jobs, par):
+    """Run independent TLC jobs concurrently (each expect_ok); counters are
+    added afterwards in the calling thread."""
+    def one(kw):
+        return ctx.tlc(count=False, **kw)
+    with ThreadPoolExecutor(max_workers=par) as ex:
+        results = list(ex.map(one, jobs))
+    for r in results:
+        ctx.states += r.distinct
+        ctx.transitions += r.generated
+    return results
+
+
+def _judge_trace(ctx, res, spec_dir, module, trace_name, what, hwm):
+    """validate_trace's verdict for an already finished TLC run."""
+    import re
+    tf = spec_dir / trace_name
+    n = count_lines(tf)
+    if n == 0:
+        raise CheckerError("empty trace %s" % tf)
+    if res.rc != 0 and not hwm:
+        raise CheckerError("TLC failed on trace spec %s:\n%s" % (module, "\n".join(res.out.splitlines()[-40:])))
+    if hwm:
+        m = re.search(r"HWM (\d+)", res.out)
+        if not m or res.violated or (res.rc != 0):
+            raise CheckerError("trace spec %s failed:\n%s" % (module, "\n".join(res.out.splitlines()[-40:])))
+        matched = int(m.group(1))
+    else:
+        if res.violated:
+            raise CheckerError("trace spec %s: invariant %s violated:\n%s" % (module, res.violated, "\n".join(res.out.splitlines()[-40:])))
+        matched = res.depth - 1
+    ctx.traces += 1
+    if matched >= n:
+        return
+    events = []
+    with open(tf, errors="replace") as f:
+        for i, line in enumerate(f):
+            if i > matched:
+                break
+            events.append(line.strip())
+    bad = events[matched] if matched < len(events) else "?"
+    lo = max(0, matched - 40)
+    ctx.mismatch("%s: event #%d not allowed by %s: %s" % (what, matched + 1, module, bad[:300]),
+                 "the recorded execution of the real code is not a behaviour of the specification",
+                 {"trace_spec": module, "matched_events": matched, "total_events": n,
+                  "context_events": events[lo:matched], "rejected_event": bad})
+
+
 def _race(ctx, what):
     golibs, other = ctx.race_reports()
     for rep in golibs:
@@ -44,6 +92,15 @@ def _race(ctx, what):
         ctx.mismatch("data race in syncutil (%s): %s" % (what, where),
                      "the race detector reported a data race with a golibs frame during free-running stress",
                      {"report": rep[:6000]})
+    if what == "Pool":
+        # Holders write plain fields of the objects they own: a race between two
+        # holders inside the stress worker is a double ownership, i.e. a finding.
+        own = [r for r in other if "c17.racePool" in r]
+        other = [r for r in other if "c17.racePool" not in r]
+        if own:
+            ctx.mismatch("Pool race stress: two holders of one object",
+                         "two goroutines accessed the same pooled object between Get and Put (race detector)",
+                         {"report": own[0][:6000], "reports": len(own)})
     if other and not golibs:
         raise CheckerError("race detector report without golibs frames (harness bug):\n" + other[0][:3000])
     for f in ctx.scratch.glob("race.*"):
@@ -57,81 +114,100 @@ def run(ctx):
     ctx.rule = ("MC: all interleavings of the fine-grained specs. S: every coarse (gate-to-gate) schedule of 2 processes x 2 Gets and of "
                 "3 processes x 1 Get over 2 keys (thorough: all; quick: all 2-process ones and simulated 3-process ones), and every "
                 "Acquire/Release/cancel event sequence to depth 7 (quick: 5) for capacities 0..2, forced on the real code. "
-                "T: race-detector stress without shared instrumentation; stamped invoke/return logs validated by OnceTrace / SemaLinTrace. "
-                "distinct_nontrivial = distinct schedules / event sequences replayed")
+                "T: race-detector stress without shared instrumentation; stamped invoke/return logs validated by OnceTrace / "
+                "SemaLinTrace / PoolTrace. distinct_nontrivial = distinct schedules / event sequences replayed")
     ctx.assumptions += [
         "key type string, value type pointer to a fresh object per constructor call",
         "gates: syncutil.VerifGate points once.miss / once.stored (build tag verif) and the constructor; no gate between Load hit and the loader call",
         "Release is not tied to a holder in the model; with capacity 0 a Release may hand over to a blocked Acquire (unbuffered channel)",
     ]
+    par = max(2, NCPU // 4)
+    w = 4
+    import time
+    t0 = time.time()
+    stages = ctx.extra.setdefault("stage_wall_s", {})
 
-    # ------------------------------------------------------------------ 1. MC
+    def mark(name):
+        nonlocal t0
+        stages[name] = round(time.time() - t0, 1)
+        t0 = time.time()
+
+    # The harness builds (plain and -race) run while TLC works.
+    builder = ThreadPoolExecutor(max_workers=2)
+    b_plain = builder.submit(ctx.build_vh, False)
+    b_race = builder.submit(ctx.build_vh, True)
+
+    # ------------------------------- 1. MC and 2. schedule generation (TLC)
+    jobs = []
+
+    def job(module, cfg, label, **kw):
+        jobs.append(dict(spec_dir=d, module=module, cfg=cfg, label=label, workers=kw.pop("workers", w), **kw))
+
     write_cfg(d / "OnceMC3_run.cfg", "FairSpec", {"Procs": "{1, 2, 3}", "Keys": KEYS, "KeyPlans": "<- OneCallPlans"},
               invariants=ONCE_INV, properties=ONCE_PROP)
-    ctx.tlc(d, "OnceMC", "OnceMC3_run.cfg", label="once-mc 3 procs x 2 keys")
+    job("OnceMC", "OnceMC3_run.cfg", "once-mc 3 procs x 2 keys")
     write_cfg(d / "OnceMC2_run.cfg", "FairSpec", {"Procs": "{1, 2}", "Keys": KEYS, "KeyPlans": "<- MixedPlans"},
               invariants=ONCE_INV, properties=ONCE_PROP)
-    ctx.tlc(d, "OnceMC", "OnceMC2_run.cfg", label="once-mc 2 procs x 1..2 Gets")
+    job("OnceMC", "OnceMC2_run.cfg", "once-mc 2 procs x 1..2 Gets")
     if not q:
         write_cfg(d / "OnceMC3b_run.cfg", "FairSpec", {"Procs": "{1, 2, 3}", "Keys": KEYS, "KeyPlans": "<- SymTwoCallPlans"},
                   invariants=ONCE_INV, properties=["MapStable", "EveryGetReturns"])
-        ctx.tlc(d, "OnceMC", "OnceMC3b_run.cfg", label="once-mc 3 procs x 2 Gets", timeout=1200)
+        job("OnceMC", "OnceMC3b_run.cfg", "once-mc 3 procs x 2 Gets", timeout=1500, workers=8)
     for n in (0, 1, 2):
         write_cfg(d / ("SemaMC%d_run.cfg" % n), "FairSpec",
                   {"Procs": "{1, 2, 3}", "N": n, "MaxCalls": 2 if q else 3, "MaxRel": 3 if q else 4},
                   invariants=SEMA_INV, properties=SEMA_PROP)
-        ctx.tlc(d, "Semaphore", "SemaMC%d_run.cfg" % n, label="sema-mc n=%d" % n)
+        job("Semaphore", "SemaMC%d_run.cfg" % n, "sema-mc n=%d" % n)
+    write_cfg(d / "PoolMC_run.cfg", "Spec", {"Procs": "{1, 2, 3}", "MaxObjs": 3, "MaxOps": 7 if q else 9},
+              invariants=["TypeOK", "SingleOwner", "FreeNotHeld"])
+    job("Pool", "PoolMC_run.cfg", "pool-mc")
 
-    # ------------------------------------------------- 2. schedule generation
+    gen_inv = ["Emit", "GenOK", "NoStuck"]
     write_cfg(d / "OnceGen2_run.cfg", "GSpec", {"Procs": "{1, 2}", "Keys": KEYS, "KeyPlans": "<- SymTwoCallPlans",
-                                                "OutFile": '"once_sched_2.ndjson"'},
-              invariants=["Emit", "GenOK", "NoStuck"])
-    ctx.tlc(d, "OnceGen", "OnceGen2_run.cfg", label="once-gen 2 procs")
-    n2 = count_lines(d / "once_sched_2.ndjson")
+                                                "OutFile": '"once_sched_2.ndjson"'}, invariants=gen_inv)
+    job("OnceGen", "OnceGen2_run.cfg", "once-gen 2 procs")
     if q:
         write_cfg(d / "OnceGen3_run.cfg", "GSpec", {"Procs": "{1, 2, 3}", "Keys": KEYS, "KeyPlans": "<- OneCallPlans",
-                                                    "OutFile": '"once_sched_3.ndjson"'},
-                  invariants=["Emit", "GenOK", "NoStuck"])
-        ctx.tlc(d, "OnceGen", "OnceGen3_run.cfg", simulate=1200, depth=60, workers=4, label="once-gen 3 procs (simulated)")
+                                                    "OutFile": '"once_sched_3.ndjson"'}, invariants=gen_inv)
+        job("OnceGen", "OnceGen3_run.cfg", "once-gen 3 procs (simulated)", simulate=1200, depth=60)
     else:
         write_cfg(d / "OnceGen3_run.cfg", "GSpec", {"Procs": "{1, 2, 3}", "Keys": KEYS, "KeyPlans": "<- SymOneCallPlans",
-                                                    "OutFile": '"once_sched_3.ndjson"'},
-                  invariants=["Emit", "GenOK", "NoStuck"])
-        ctx.tlc(d, "OnceGen", "OnceGen3_run.cfg", label="once-gen 3 procs", timeout=1500)
+                                                    "OutFile": '"once_sched_3.ndjson"'}, invariants=gen_inv)
+        job("OnceGen", "OnceGen3_run.cfg", "once-gen 3 procs", timeout=1500, workers=8)
         write_cfg(d / "OnceGen3s_run.cfg", "GSpec", {"Procs": "{1, 2, 3}", "Keys": KEYS, "KeyPlans": "<- MixedPlans",
-                                                     "OutFile": '"once_sched_3s.ndjson"'},
-                  invariants=["Emit", "GenOK", "NoStuck"])
-        ctx.tlc(d, "OnceGen", "OnceGen3s_run.cfg", simulate=4000, depth=90, workers=4, label="once-gen 3 procs x 1..2 Gets (simulated)")
-    n3 = count_lines(d / "once_sched_3.ndjson")
+                                                     "OutFile": '"once_sched_3s.ndjson"'}, invariants=gen_inv)
+        job("OnceGen", "OnceGen3s_run.cfg", "once-gen 3 procs x 1..2 Gets (simulated)", simulate=4000, depth=90)
     depth = 5 if q else 7
-    nsema = 0
     for n in (0, 1, 2):
         write_cfg(d / ("SemaGen%d_run.cfg" % n), "GSpec",
                   {"Procs": "{1, 2, 3}", "N": n, "MaxCalls": 3, "MaxRel": 1000, "Depth": depth,
-                   "OutFile": '"sema_sched_%d.ndjson"' % n},
-                  invariants=["Emit", "GenOK"])
-        ctx.tlc(d, "SemaphoreGen", "SemaGen%d_run.cfg" % n, label="sema-gen n=%d depth %d" % (n, depth), timeout=1500)
-        nsema += count_lines(d / ("sema_sched_%d.ndjson" % n))
+                   "OutFile": '"sema_sched_%d.ndjson"' % n}, invariants=["Emit", "GenOK"])
+        job("SemaphoreGen", "SemaGen%d_run.cfg" % n, "sema-gen n=%d depth %d" % (n, depth), timeout=1500,
+            workers=w if q else 8)
+    _par_tlc(ctx, jobs, par)
+    mark("tlc_mc_and_generation")
+    n2 = count_lines(d / "once_sched_2.ndjson")
+    n3 = count_lines(d / "once_sched_3.ndjson")
+    nsema = sum(count_lines(d / ("sema_sched_%d.ndjson" % n)) for n in (0, 1, 2))
     ctx.extra["schedules_enumerated"] = {"once_2_procs": n2, "once_3_procs": n3, "semaphore_event_sequences": nsema}
 
     # ------------------------------------------------------ 3. schedule replay
-    ctx.build_vh()
-    jobs = [(["c17", "replay-once", d / "once_sched_2.ndjson", ctx.scratch / "once2.res", 1], "once2.res"),
-            (["c17", "replay-once", d / "once_sched_3.ndjson", ctx.scratch / "once3.res", 1], "once3.res")]
+    b_plain.result()
+    rjobs = [(["c17", "replay-once", d / "once_sched_2.ndjson", ctx.scratch / "once2.res", 1], "once2.res"),
+             (["c17", "replay-once", d / "once_sched_3.ndjson", ctx.scratch / "once3.res", 1], "once3.res")]
     if not q:
-        jobs.append((["c17", "replay-once", d / "once_sched_3s.ndjson", ctx.scratch / "once3s.res", 1], "once3s.res"))
+        rjobs.append((["c17", "replay-once", d / "once_sched_3s.ndjson", ctx.scratch / "once3s.res", 1], "once3s.res"))
     # VerifGate is a process-wide hook: OnceConstructor replays run one after the other inside a process
     # (separate processes are independent).  Semaphore sequences have no global state and are sharded.
     shards = 1 if q else max(2, min(6, NCPU // 2))
     for n in (0, 1, 2):
         for sh in range(shards):
             name = "sema%d_%d.res" % (n, sh)
-            jobs.append((["c17", "replay-sema", d / ("sema_sched_%d.ndjson" % n), ctx.scratch / name, 1, sh, shards], name))
-    par = 2 if q else max(2, min(6, NCPU // 2))
-    with ThreadPoolExecutor(max_workers=par) as ex:
-        list(ex.map(lambda j: ctx.vh(j[0], timeout=2400), jobs))
+            rjobs.append((["c17", "replay-sema", d / ("sema_sched_%d.ndjson" % n), ctx.scratch / name, 1, sh, shards], name))
+    with ThreadPoolExecutor(max_workers=3 if q else max(2, min(6, NCPU // 2))) as ex:
+        list(ex.map(lambda j: ctx.vh(j[0], timeout=2400), rjobs))
     tot = {}
-    for _, name in jobs:
+    for _, name in rjobs:
         s = ctx.collect(ctx.scratch / name)
         for k, v in s.items():
             if isinstance(v, (int, float)) and not isinstance(v, bool):
@@ -139,11 +215,59 @@ def run(ctx):
     ctx.evaluations += tot.get("steps", 0)
     ctx.distinct += tot.get("distinct_nontrivial", 0)
     ctx.traces += tot.get("replayed", 0)
+    mark("schedule_replay")
     ctx.exhaustive = True
     ctx.extra["schedule_replay"] = {k: tot.get(k, 0) for k in
                                     ("replayed", "steps", "diverged", "other_legal_branch", "retries", "unconfirmed_blocks")}
 
-    # -------------------------------------- 4. phase A: race hunting (-race)
+    # ------------------- 4. phase B: stamped logs, validated by TLC (binding T)
+    # (before phase A so that an ownership / bound violation is reported as such
+    # and not as the harness-frame race it also causes)
+    ctx.vh(["c17", "stress-sema-hwm", ctx.scratch / "hwm.res", 30 if q else 300])
+    sh = ctx.collect(ctx.scratch / "hwm.res")
+    ctx.evaluations += sh["calls"]
+    ctx.sample({"semaphore_hwm_stress": sh})
+    ev = 0
+    tjobs, judge = [], []
+
+    def trace(cmd, tf, resname, module, cfgname, consts, invs, what, hwm, seed_i=0):
+        nonlocal ev
+        ctx.vh(cmd, env={"VERIF_SEED": str(ctx.seed * 31 + seed_i)})
+        s = ctx.collect(ctx.scratch / resname)
+        ev += s["events"]
+        ctx.traces += s["rounds"] - 1
+        write_cfg(d / cfgname, "TSpec", consts, invariants=invs, extra="POSTCONDITION Post" if hwm else "")
+        tjobs.append(dict(spec_dir=d, module=module, cfg=cfgname, workers=1, timeout=900, expect_ok=False, label="trace:" + what))
+        judge.append((module, tf, what, hwm))
+
+    for i in range(1 if q else 4):
+        tf = "once_trace_%d.ndjson" % i
+        trace(["c17", "stress-once", d / tf, ctx.scratch / ("so%d.res" % i), 25 if q else 40], tf, "so%d.res" % i,
+              "OnceTrace", "OnceTrace%d_run.cfg" % i,
+              {"AProcs": "<- TraceProcs", "AKeys": '{"k0", "k1", "k2", "k3"}', "NoKey": '"-"', "AVals": "{}", "TraceFile": '"%s"' % tf},
+              ["OnceOnlyT"], "OnceConstructor stress log", False, i)
+    for n in ((1, 2, 0) if q else (0, 1, 2, 3)):
+        for i in range(1 if q else 2):
+            tf = "sema_trace_%d_%d.ndjson" % (n, i)
+            trace(["c17", "stress-sema", d / tf, ctx.scratch / ("ss%d_%d.res" % (n, i)), n, 3 if q else 4, 8, 40], tf,
+                  "ss%d_%d.res" % (n, i), "SemaLinTrace", "SemaTrace%d_%d_run.cfg" % (n, i),
+                  {"Procs": "<- TraceProcs", "N": n, "MaxCalls": 1000000, "MaxRel": 1000000, "TraceFile": '"%s"' % tf},
+                  ["BoundT"], "ChanSemaphore stress log (capacity %d)" % n, True, i)
+    trace(["c17", "stress-pool", d / "pool_trace.ndjson", ctx.scratch / "sp.res", 4 if q else 12], "pool_trace.ndjson", "sp.res",
+          "PoolTrace", "PoolTrace_run.cfg",
+          {"Procs": "<- TraceProcs", "MaxObjs": 1000000, "MaxOps": 1000000, "TraceFile": '"pool_trace.ndjson"'},
+          ["SingleOwner"], "Pool stress log", False)
+    mark("stamped_stress")
+    results = _par_tlc(ctx, tjobs, max(2, NCPU // 2))
+    for r, (module, tf, what, hwm) in zip(results, judge):
+        _judge_trace(ctx, r, d, module, tf, what, hwm)
+    mark("trace_validation")
+    ctx.evaluations += ev
+    ctx.extra["trace_events_validated"] = ev
+
+    # -------------------------------------- 5. phase A: race hunting (-race)
+    b_race.result()
+    builder.shutdown()
     if not ctx.mismatches:
         ctx.vh(["c17", "race-once", ctx.scratch / "raceonce.res", 150 if q else 1500], race=True, ok_codes=(0, 66))
         sa = ctx.collect(ctx.scratch / "raceonce.res")
@@ -155,52 +279,9 @@ def run(ctx):
         sp = ctx.collect(ctx.scratch / "racepool.res")
         nr += _race(ctx, "Pool")
         ctx.evaluations += sa["gets"] + sb["calls"] + sp["calls"]
+        mark("race_stress")
         ctx.extra["race_stress"] = {"once_gets": sa["gets"], "sema_calls": sb["calls"], "pool_calls": sp["calls"],
                                     "goroutines": sa["goroutines"], "race_reports_with_golibs_frames": nr}
-
-    # ------------------- 5. phase B: stamped logs, validated by TLC (binding T)
-    ctx.vh(["c17", "stress-sema-hwm", ctx.scratch / "hwm.res", 30 if q else 300])
-    sh = ctx.collect(ctx.scratch / "hwm.res")
-    ctx.evaluations += sh["calls"]
-    rounds = 25 if q else 40
-    files = 1 if q else 4
-    ev = 0
-    for i in range(files):
-        tf = "once_trace_%d.ndjson" % i
-        ctx.vh(["c17", "stress-once", d / tf, ctx.scratch / ("so%d.res" % i), rounds], env={"VERIF_SEED": str(ctx.seed * 31 + i)})
-        s = ctx.collect(ctx.scratch / ("so%d.res" % i))
-        ev += s["events"]
-        ctx.traces += s["rounds"] - 1
-        write_cfg(d / ("OnceTrace%d_run.cfg" % i), "TSpec",
-                  {"AProcs": "<- TraceProcs", "AKeys": '{"k0", "k1", "k2", "k3"}', "NoKey": '"-"', "AVals": "{}",
-                   "TraceFile": '"%s"' % tf}, invariants=["OnceOnlyT"])
-        validate_trace(ctx, d, "OnceTrace", "OnceTrace%d_run.cfg" % i, tf, "OnceConstructor stress log")
-    for n in ((1, 2, 0) if q else (0, 1, 2, 3)):
-        for i in range(1 if q else 2):
-            tf = "sema_trace_%d_%d.ndjson" % (n, i)
-            ctx.vh(["c17", "stress-sema", d / tf, ctx.scratch / ("ss%d_%d.res" % (n, i)), n, 3 if q else 4, 8, 40],
-                   env={"VERIF_SEED": str(ctx.seed * 31 + i)})
-            s = ctx.collect(ctx.scratch / ("ss%d_%d.res" % (n, i)))
-            ev += s["events"]
-            ctx.traces += s["rounds"] - 1
-            write_cfg(d / ("SemaTrace%d_%d_run.cfg" % (n, i)), "TSpec",
-                      {"Procs": "<- TraceProcs", "N": n, "MaxCalls": 1000000, "MaxRel": 1000000, "TraceFile": '"%s"' % tf},
-                      invariants=["BoundT"], extra="POSTCONDITION Post")
-            validate_trace(ctx, d, "SemaLinTrace", "SemaTrace%d_%d_run.cfg" % (n, i), tf,
-                           "ChanSemaphore stress log (capacity %d)" % n, hwm=True)
-    # Pool ownership log
-    ctx.vh(["c17", "stress-pool", d / "pool_trace.ndjson", ctx.scratch / "sp.res", 4 if q else 12])
-    s = ctx.collect(ctx.scratch / "sp.res")
-    ev += s["events"]
-    write_cfg(d / "PoolMC_run.cfg", "Spec", {"Procs": "{1, 2, 3}", "MaxObjs": 3, "MaxOps": 7 if q else 9},
-              invariants=["TypeOK", "SingleOwner", "FreeNotHeld"])
-    ctx.tlc(d, "Pool", "PoolMC_run.cfg", label="pool-mc")
-    write_cfg(d / "PoolTrace_run.cfg", "TSpec", {"Procs": "<- TraceProcs", "MaxObjs": 1000000, "MaxOps": 1000000,
-                                                 "TraceFile": '"pool_trace.ndjson"'}, invariants=["SingleOwner"])
-    validate_trace(ctx, d, "PoolTrace", "PoolTrace_run.cfg", "pool_trace.ndjson", "Pool stress log")
-    ctx.evaluations += ev
-    ctx.extra["trace_events_validated"] = ev
-    ctx.sample({"semaphore_hwm_stress": sh})
 
 
 def replay(ctx, path):
